@@ -25,3 +25,13 @@ package sharding
 //@   opts trusted
 //@   ensures res != nil
 //@   modifies nothing
+
+// "on failure the root is not pinned": a shard is pinned only after its own blocks were put successfully, with
+// the allocations the blocks were sent to, as a shard entry deep enough to cover its links
+//@ func (sh *shard) Flush
+//@   property C13
+//@   requires sh != nil
+//@   ensures [pinned-only-after-its-blocks-were-put] clusterPinN != old(clusterPinN) ==> addManyOK == old(addManyOK) + 1
+//@   ensures [put-failure-is-an-error] addManyN == old(addManyN) + 1 && addManyOK == old(addManyOK) ==> err != nil
+//@   at_call adder.Pin assert [shard-entry] pin.Type == api.ShardType && pin.Allocations == sh.allocations && pin.Cid == rootCid && pin.MaxDepth == ite(len(nodes) > len(sh.dagNode) + 1, 2, 1)
+//@   modifies *
